@@ -15,7 +15,7 @@ def MEMCHECK(harness, quick, thorough, mode='', **kw):
 
 PROPS = {
     'C01': dict(
-        level_text='Runtime monitoring against a reference model: every generated (address, type string, values) case is encoded by all four constructors (rtosc_amessage, rtosc_vmessage through a hand-built va_list, true-varargs rtosc_message call sites, rtosc_avmessage incl. compressed ranges) and compared bytewise with an independent OSC 1.0 encoder; the bytes are then read back from an exact-size heap copy through every accessor and compared bit-for-bit. Held on the cases explored (type strings exhaustive to length 2/3, random beyond), not a proof.',
+        level_text='Runtime monitoring against a reference model: every generated (address, type string, values) case is encoded by all four constructors (rtosc_amessage, rtosc_vmessage through a hand-built va_list, true-varargs rtosc_message call sites, rtosc_avmessage incl. compressed ranges) and compared bytewise with an independent OSC 1.0 encoder; the bytes are then read back from an exact-size heap copy through every accessor and compared bit-for-bit. Held on the cases explored (type strings exhaustive to length 2/3, random beyond), not a proof. Round 2-5 additions: messages read from addresses 1..3 bytes off alignment, encoded into unaligned destinations, measured as two-segment rings at every split, re-read from one reused buffer in odd orders (history independence), addresses that spell almost the bundle marker, 30..70 value-carrying arguments, repetitions of value-less tags in arg-val lists.',
         level_note='Trusts the reference codec harness/refosc.h (written from the OSC 1.0 text), the x86-64 SysV va_list layout, gcc AddressSanitizer red zones for out-of-bounds detection. Float signalling NaNs are not passed through varargs paths (C promotion quiets them).',
         technique='reference-model differential monitor under AddressSanitizer/UBSan',
         stages=[dict(harness='c01', variant='asan', quick=24000, thorough=1500000,
@@ -44,7 +44,7 @@ PROPS = {
         exhaustive=dict(quick=False, thorough=False),
         assumptions=['reference sizes from refosc.h', 'elements handed to rtosc_bundle are followed by >=4 zero bytes (API passes no element length)']),
     'C08': dict(
-        level_text='Runtime monitoring against a reference model: generated element trees (0..8 elements per bundle, messages from the C01 generator or bundles, nesting depth 0..4, time tags incl. 0, 1, max) are built bottom-up with rtosc_bundle into exact-size heap buffers and compared bytewise with an independent bundle encoder; each result is decomposed recursively (rtosc_bundle_p, _elements, _fetch pointer and bytes, _size, _timetag, rtosc_message_length) under AddressSanitizer. subtree_serialize (append_bundle) is driven over a small port tree with random state and buffer capacities and compared with the reference bundle of the expected replies.',
+        level_text='Runtime monitoring against a reference model: generated element trees (0..8 elements per bundle, messages from the C01 generator or bundles, nesting depth 0..4, time tags incl. 0, 1, max) are built bottom-up with rtosc_bundle into exact-size heap buffers and compared bytewise with an independent bundle encoder; each result is decomposed recursively (rtosc_bundle_p, _elements, _fetch pointer and bytes, _size, _timetag, rtosc_message_length) under AddressSanitizer. subtree_serialize (append_bundle) is driven over a small port tree with random state and buffer capacities and compared with the reference bundle of the expected replies. Round 2-5 additions: sub-tree snapshots into dirty/reused save buffers read back under the capacity bound, near-marker addresses, bundles of up to 12 elements, shortest (8-byte) elements, unaligned placement and destination, two-segment ring measurement, reused-buffer fetch orders, generous element-count bounds.',
         level_note='Trusts refosc.h. Elements are handed over in their own buffer followed by 4 zero bytes because the API passes no element length. Held on the trees explored.',
         technique='reference-model differential monitor under AddressSanitizer/UBSan',
         stages=[dict(harness='c08', variant='asan', quick=5000, thorough=500000,
@@ -55,7 +55,7 @@ PROPS = {
         exhaustive=dict(quick=False, thorough=False),
         assumptions=['reference bundle encoder refosc.h', 'elements followed by >=4 zero bytes when passed to rtosc_bundle']),
     'C07': dict(
-        level_text='Runtime monitoring of untrusted input: each byte buffer is copied into an exact-size block that ends at a PROT_NONE page, rtosc_message_length and rtosc_valid_message_p are run on it (an out-of-bounds read faults, a hang trips the watchdog, a length > n fails), and for every accepted buffer all accessors (argument string, count, type, argument by index, iterator) are called with explicit range checks on returned string/blob pointers and compared with an independent lenient OSC decoder. Inputs: exhaustive enumeration of all buffers up to 7/8 bytes over an 8-symbol alphabet plus all tagged 12/16-byte messages of a small family, and structure-aware mutation of valid messages (truncation, non-zero padding, crafted blob lengths incl. 32-bit wrap values, bundle size words, splices) under AddressSanitizer.',
+        level_text='Runtime monitoring of untrusted input: each byte buffer is copied into an exact-size block that ends at a PROT_NONE page, rtosc_message_length and rtosc_valid_message_p are run on it (an out-of-bounds read faults, a hang trips the watchdog, a length > n fails), and for every accepted buffer all accessors (argument string, count, type, argument by index, iterator) are called with explicit range checks on returned string/blob pointers and compared with an independent lenient OSC decoder. Inputs: exhaustive enumeration of all buffers up to 7/8 bytes over an 8-symbol alphabet plus all tagged 12/16-byte messages of a small family, and structure-aware mutation of valid messages (truncation, non-zero padding, crafted blob lengths incl. 32-bit wrap values, bundle size words, splices) under AddressSanitizer. Round 2-5 additions: a coverage-guided stage (libFuzzer drives the same oracle), the accepted bytes are also read back to front, from an unaligned copy and from a fixed buffer that held another message before.',
         level_note='Trusts the MMU (guard page directly behind the n bytes; reads before the buffer are only caught under ASan when they leave the mapping), harness/refosc.h lenient decoder, the 20 s no-progress watchdog for termination. Coverage-guided fuzzing is not part of the registered check.',
         technique='guard-page + reference-decoder monitor over exhaustive small inputs and structure-aware mutants (plain and AddressSanitizer builds)',
         stages=[dict(harness='c07', variant='plain', mode='exh', quick=5542473, thorough=99795529, min_per_shard=100000,
@@ -233,7 +233,7 @@ PROPS = {
         exhaustive=dict(quick=False, thorough=False),
         assumptions=['reference application model harness/zoo.h', 'exhaustive over permutations only up to 6 lines']),
     'C09': dict(
-        level_text='Runtime monitoring against a reference expansion: (tree) generated port trees of depth 1..4 with leaf and sub-tree ports, #N at any level, multi-component names such as a#3/b#2/c/ and argument specs are walked with the default options from an empty and from a prefixed name buffer; the multiset of (port, address) pairs must equal the reference expansion (each #N -> 0..N-1), the buffer must hold the starting prefix afterwards, and every reported address is sent back as a message and must invoke exactly the reported port; the other option combinations are only checked for buffer restoration and memory safety. (zoo) the zoo application built from rRecur/rRecurs/rRecurp/rSelf/rEnabledBy is walked with its runtime object in all 256 states of its enabling toggles and pointers: the reported addresses must be exactly those below enabled sub-trees / non-null pointers (a disabled object still presents its enabling toggle), and the walker must receive the runtime object that owns each port.',
+        level_text='Runtime monitoring against a reference expansion: (tree) generated port trees of depth 1..4 with leaf and sub-tree ports, #N at any level, multi-component names such as a#3/b#2/c/ and argument specs are walked with the default options from an empty and from a prefixed name buffer; the multiset of (port, address) pairs must equal the reference expansion (each #N -> 0..N-1), the buffer must hold the starting prefix afterwards, and every reported address is sent back as a message and must invoke exactly the reported port; the other option combinations are only checked for buffer restoration and memory safety. (zoo) the zoo application built from rRecur/rRecurs/rRecurp/rSelf/rEnabledBy is walked with its runtime object in all 256 states of its enabling toggles and pointers: the reported addresses must be exactly those below enabled sub-trees / non-null pointers (a disabled object still presents its enabling toggle), and the walker must receive the runtime object that owns each port. Round 2-5 additions: two/three-digit indices, toggles named after the sub-tree they enable, integer-valued enabling ports, a pointer sub-tree gated by a toggle, both enabling declarations on one object, walks that start at a sub-object\'s table below short and 270-character caller locations.',
         level_note='Trusts treegen.h (reference expansion) and zoo.h (which sub-trees are live). Leaves with two enumerations are a known finding (dedicated witness, not generated otherwise).',
         technique='reference-model differential monitor (expansion + dispatch-back) and exhaustive runtime-state sweep, AddressSanitizer/UBSan',
         stages=[dict(harness='c09', variant='asan', mode='tree', quick=800, thorough=30000,
